@@ -1,4 +1,5 @@
 import OsuProofs.SourceTerms
+import OsuProofs.Support
 /-
 C08 — source terms: sign, support, scaling; bulk rates integrate the spectral rates.
 
@@ -204,6 +205,132 @@ theorem bulk_nonneg (g : Grid ℝ) (data : List (List ℝ)) (h : ∀ row ∈ dat
 /-- each point of a batch gets the result it would get alone: the batch model is a map -/
 theorem batch_independent {β γ : Type} (term : β → γ) (batch : List β) (i : ℕ) (h : i < batch.length) :
     (batch.map term)[i]'(by simpa using h) = term batch[i] := by simp
+
+/-! ### whole fields: sign, support, empty spectrum -/
+
+/-- entries of a sum of two fields -/
+theorem addFields_nonpos (A B : List (List ℝ)) (hA : ∀ row ∈ A, ∀ x ∈ row, x ≤ 0) (hB : ∀ row ∈ B, ∀ x ∈ row, x ≤ 0) :
+    ∀ row ∈ addFields A B, ∀ x ∈ row, x ≤ 0 := by
+  intro row hrow x hx
+  obtain ⟨ra, hra, rb, hrb, rfl⟩ := mem_zipWith _ _ _ _ hrow
+  obtain ⟨a, ha, b, hb, rfl⟩ := mem_zipWith _ _ _ _ hx
+  have := hA ra hra a ha; have := hB rb hrb b hb
+  linarith
+
+/-- **ST4 whitecapping (saturation + cumulative) is non-positive everywhere** for a non-negative spectrum -/
+theorem st4Dissipation_nonpos (flr : ℝ → ℝ) (bp : BrkP ℝ) (g : Grid ℝ) (kin : Kin ℝ) (E : List (List ℝ))
+    (hE : ∀ row ∈ E, ∀ e ∈ row, 0 ≤ e) (hom : ∀ om ∈ g.omega, 0 ≤ om)
+    (hdf : ∀ d ∈ g.df, 0 ≤ d) (hdth : ∀ d ∈ g.dth, 0 ≤ d) (hcg : ∀ c ∈ kin.cg, 0 ≤ c) :
+    ∀ row ∈ st4Dissipation flr bp g kin E, ∀ x ∈ row, x ≤ 0 := by
+  simp only [st4Dissipation]
+  exact addFields_nonpos _ _ (cumulativeBreaking_nonpos bp g kin E _ hE hdf hdth hcg)
+    (saturationBreaking_nonpos bp g E _ hE hom)
+
+theorem st6Exceedance_nonneg (sp : St6P ℝ) (g : Grid ℝ) (kin : Kin ℝ) (E : List (List ℝ)) :
+    ∀ r ∈ st6Exceedance sp g kin E, 0 ≤ r := by
+  intro r hr
+  simp only [st6Exceedance] at hr
+  obtain ⟨e1, _, ck, _, rfl⟩ := mem_zipWith _ _ _ _ hr
+  split
+  · exact le_of_lt ‹_›
+  · exact le_refl _
+
+theorem runSums_nonneg (acc : ℝ) (hacc : 0 ≤ acc) (xs : List ℝ) (hx : ∀ x ∈ xs, 0 ≤ x) : ∀ s ∈ runSums acc xs, 0 ≤ s := by
+  induction xs generalizing acc with
+  | nil => simp [runSums]
+  | cons x xs ih =>
+    intro s hs
+    simp only [runSums, List.mem_cons] at hs
+    have hx0 := hx x List.mem_cons_self
+    rcases hs with rfl | hs
+    · linarith
+    · exact ih (acc + x) (by linarith) (fun y hy => hx y (List.mem_cons_of_mem _ hy)) s hs
+
+/-- **ST6 whitecapping is non-positive everywhere** for a non-negative spectrum -/
+theorem st6Dissipation_nonpos (sp : St6P ℝ) (g : Grid ℝ) (kin : Kin ℝ) (E : List (List ℝ))
+    (ha1 : 0 ≤ sp.a1) (ha2 : 0 ≤ sp.a2)
+    (hE : ∀ row ∈ E, ∀ e ∈ row, 0 ≤ e) (hom : ∀ om ∈ g.omega, 0 ≤ om) (hdf : ∀ d ∈ g.df, 0 ≤ d) :
+    ∀ row ∈ st6Dissipation sp g kin E, ∀ x ∈ row, x ≤ 0 := by
+  intro row hrow x hx
+  simp only [st6Dissipation] at hrow
+  obtain ⟨erow, herow, ro, hro, rfl⟩ := mem_zipWith _ _ _ _ hrow
+  simp only [List.mem_map] at hx
+  obtain ⟨e, he, rfl⟩ := hx
+  have h1 := List.of_mem_zip hro
+  have h2 := List.of_mem_zip h1.2
+  apply st6Entry_nonpos sp _ _ _ _ ha1 ha2 (st6Exceedance_nonneg sp g kin E _ h1.1) _ (hom _ h2.2) (hE _ herow _ he)
+  apply runSums_nonneg 0 (le_refl _) _ _ _ h2.1
+  intro y hy
+  obtain ⟨r, hr, d, hd, rfl⟩ := mem_zipWith _ _ _ _ hy
+  exact mul_nonneg (st6Exceedance_nonneg sp g kin E r hr) (hdf d hd)
+
+/-- **support of the wind input**: zero in every bin where the spectrum has no energy (positionally) -/
+theorem st4Input_support (flr : ℝ → ℝ) (p : GenP ℝ) (g : Grid ℝ) (kin : Kin ℝ) (E : List (List ℝ)) (w : Wind ℝ) (z0 : ℝ) :
+    Supp E (st4Input flr p g kin E w z0) := by
+  simp only [st4Input]
+  apply supp_zipWith
+  intro row ko
+  exact suppRow_zipWith _ (fun c => st4Rate_zero_of_no_energy p _ _ _ _ c) row _
+
+/-- **support of the ST4 dissipation** -/
+theorem st4Dissipation_support (flr : ℝ → ℝ) (bp : BrkP ℝ) (g : Grid ℝ) (kin : Kin ℝ) (E : List (List ℝ)) :
+    Supp E (st4Dissipation flr bp g kin E) := by
+  simp only [st4Dissipation]
+  apply supp_add
+  · simp only [cumulativeBreaking]
+    split
+    · exact supp_map_zero E
+    · apply supp_zipWith
+      intro row oc
+      exact suppRow_zipWith _ (fun th => cumEntry_zero_of_no_energy bp _) row _
+  · simp only [saturationBreaking]
+    split
+    · exact supp_map_zero E
+    · apply supp_zipWith_zip
+      intro eb om
+      exact suppRow_zipWith _ (fun b => satEntry_zero_of_no_energy bp om _ b) eb.1 eb.2
+
+/-- **support of the ST6 dissipation** -/
+theorem st6Dissipation_support (sp : St6P ℝ) (g : Grid ℝ) (kin : Kin ℝ) (E : List (List ℝ)) :
+    Supp E (st6Dissipation sp g kin E) := by
+  simp only [st6Dissipation]
+  apply supp_zipWith
+  intro row ro
+  exact suppRow_map _ (st6Entry_zero_of_no_energy sp _ _ _) row
+
+/-- a field supported on an empty spectrum is identically zero -/
+theorem zero_of_empty (E D : List (List ℝ)) (h : Supp E D) (hE : ∀ row ∈ E, ∀ e ∈ row, e = 0) : ∀ i j, entry D i j = 0 := by
+  intro i j
+  apply h
+  simp only [entry, List.getD_eq_getElem?_getD]
+  cases hr : E[i]? with
+  | none => simp
+  | some row =>
+    simp only [Option.getD_some]
+    cases he : row[j]? with
+    | none => simp
+    | some e => simpa using hE row (List.mem_of_getElem? hr) e (List.mem_of_getElem? he)
+
+/-- **dissipation of an empty spectrum is identically zero** (ST4 and ST6) -/
+theorem dissipation_of_empty_spectrum (flr : ℝ → ℝ) (bp : BrkP ℝ) (sp : St6P ℝ) (g : Grid ℝ) (kin : Kin ℝ) (E : List (List ℝ))
+    (hE : ∀ row ∈ E, ∀ e ∈ row, e = 0) :
+    (∀ i j, entry (st4Dissipation flr bp g kin E) i j = 0) ∧ (∀ i j, entry (st6Dissipation sp g kin E) i j = 0) :=
+  ⟨zero_of_empty E _ (st4Dissipation_support flr bp g kin E) hE, zero_of_empty E _ (st6Dissipation_support sp g kin E) hE⟩
+
+/-- wind input in directions with no downwind component is zero: every entry of a row whose
+mutual-angle cosine is `≤ 0` -/
+theorem st4Input_row_zero_upwind (p : GenP ℝ) (k om ustar z0 : ℝ) (row cs : List ℝ) (j : ℕ)
+    (hc : cs.getD j 0 ≤ 0) :
+    (List.zipWith (fun e c => st4Rate p k om ustar z0 c e) row cs).getD j 0 = 0 := by
+  simp only [List.getD_eq_getElem?_getD, List.getElem?_zipWith] at hc ⊢
+  cases hr : row[j]? with
+  | none => simp
+  | some e =>
+    cases hcs : cs[j]? with
+    | none => simp
+    | some c =>
+      simp only [hcs, Option.getD_some] at hc
+      simp [st4Rate_zero_of_no_downwind p k om ustar z0 c e hc]
 
 example : GenOk (⟨9.81, none, 0.01, 1.225, 1024, 0.4, 0.006, 1.52, 10, 1.48e-5, 0⟩ : GenP ℝ) := by
   constructor <;> norm_num
